@@ -222,7 +222,7 @@ func runWorker(args []string) int {
 				flushed = rep.NViol
 				write() // keep what was found even if a later case kills the process
 			}
-			if rep.NViol >= 10 || len(rep.Harness) >= 3 {
+			if rep.NViol >= 10 || len(rep.Harness) >= 3 || rep.Counters["nonterminating_evaluations"] >= 3 {
 				res.StoppedEarly = true
 				write()
 				return 0
